@@ -1,0 +1,10 @@
+//go:build verif
+
+package mtproto
+
+// VerifSessionState reports what NewMTProto took from the session store: whether the client
+// considers itself encrypted (no key exchange on CreateConnection) and the key, key hash, salt
+// and server address it will use. Read-only; compiled only with the build tag "verif".
+func (m *MTProto) VerifSessionState() (encrypted bool, key, hash []byte, salt int64, addr string) {
+	return m.encrypted, m.authKey, m.authKeyHash, m.serverSalt, m.addr
+}
